@@ -69,7 +69,7 @@ RuleInit(cfg) ==
    cadNs |-> [s \in St |-> -1], cadPolled |-> [s \in St |-> {}], cadVisits |-> [s \in St |-> 0], cadBad |-> FALSE,
    expectSucc |-> [s \in St |-> -1],
    appsent |-> [s \in St |-> FALSE],
-   outstanding |-> [s \in St |-> -1], rrNext |-> [s \in St |-> -1], declined |-> [s \in St |-> {}], asked |-> [s \in St |-> {}], sentInVisit |-> [s \in St |-> FALSE], unasked |-> [s \in St |-> [a \in 0..3 |-> 0]],
+   outstanding |-> [s \in St |-> -1], rrNext |-> [s \in St |-> -1], declined |-> [s \in St |-> {}], asked |-> [s \in St |-> {}], sentInVisit |-> [s \in St |-> FALSE], hpUsed |-> [s \in St |-> FALSE], unasked |-> [s \in St |-> [a \in 0..3 |-> 0]],
    hw |-> NoWatch,
    rot |-> [s \in St |-> NoRot],
    lastPop |-> 0, faultsEnd |-> -1, disturbed |-> cfg.mode = "race", garbled |-> cfg.mode = "race", reached |-> FALSE, reachedAt |-> -1,
@@ -118,7 +118,7 @@ NewVisit(rs, s, claim, tok2, t) ==
       missed == full /\ ~(GapSet(s, ns, hsa) \subseteq rs.cadPolled[s])
   IN [rs EXCEPT !.recvPrev[s] = rs.recvCur[s], !.recvCur[s] = t,
                 !.visit[s] = [open |-> TRUE, claim |-> claim, gappolls |-> 0, appreqs |-> 0, tok2 |-> tok2],
-                !.declined[s] = {}, !.asked[s] = {}, !.sentInVisit[s] = FALSE, !.pasTaint = FALSE,
+                !.declined[s] = {}, !.asked[s] = {}, !.sentInVisit[s] = FALSE, !.hpUsed[s] = FALSE, !.pasTaint = FALSE,
                 \* a request still unanswered when the station takes a new token was abandoned (an unexpected telegram
                 \* ended the wait): 'at most one of reply / time-out per request'
                 !.outstanding[s] = -1,
@@ -355,8 +355,11 @@ OnCb(rs, e) ==
              \* (single-station runs: the adversarial peer can leave tokens unread in the PHY buffer, so the visits
              \* seen on the wire are not the visits the station lives through - the per-visit clauses are not judged)
              <<"C15.rr", (rs.cfg.mode # "single" /\ rs.rrNext[s] # -1) => rs.rrNext[s] = a>>,
-             <<"C15.done", rs.cfg.mode # "single" => a \notin rs.declined[s]>> >>
-           rs0 == [rs EXCEPT !.asked[s] = @ \cup {a}, !.sentInVisit[s] = @ \/ e.sent]
+             <<"C15.done", rs.cfg.mode # "single" => a \notin rs.declined[s]>>,
+             \* "it may always perform one message cycle per token visit": once the guaranteed cycle (asked with
+             \* high priority only, because the hold time is over) has been used, nobody is asked again in this visit
+             <<"C15.once", rs.cfg.mode # "single" => ~rs.hpUsed[s]>> >>
+           rs0 == [rs EXCEPT !.asked[s] = @ \cup {a}, !.sentInVisit[s] = @ \/ e.sent, !.hpUsed[s] = @ \/ (e.sent /\ e.hp)]
            rs1 == IF e.sent
                   THEN [rs0 EXCEPT !.appsent[s] = TRUE, !.outstanding[s] = IF e.reply THEN a ELSE -1, !.rrNext[s] = a]
                   ELSE [rs0 EXCEPT !.declined[s] = @ \cup {a}, !.rrNext[s] = (a + 1) % n]
@@ -409,7 +412,7 @@ AllClauses == {"C01.overlap", "C01.permission", "C01.tsdr", "C01.tid", "C01.Repl
                "C11.accept", "C11.max3", "C11.immediate", "C11.drop", "C11.patience", "C11.heard", "C11.own",
                "C12.range", "C12.one", "C12.cadence", "C12.successor", "C12.reply.state", "C12.reply.when", "C12.ready",
                "C13.hold", "C13.starve",
-               "C15.holder", "C15.rr", "C15.done", "C15.match", "C15.form", "C15.reply", "C15.timeout",
+               "C15.holder", "C15.rr", "C15.done", "C15.once", "C15.match", "C15.form", "C15.reply", "C15.timeout",
                "C02.order", "C02.stable", "C02.converge", "C02.end", "C06.order", "C06.stable", "C06.converge", "C06.end",
                "C06.single", "C06.alive", "C05.panic", "C05.hang"}
 =============================================================================
